@@ -25,5 +25,6 @@ CHECKS = {
     "C07": {"level": E, "units": [go("TestC07Gen", 50000, 2000000, netns=False), go("TestC07Conc", 600, 20000, race=True, netns=False, confirm=False), go("TestC07Wire", 500, 20000)]},
     "C05": {"level": E, "units": [go("TestC05", 600, 20000)]},
     "C04": {"level": E, "units": [go("TestC04", 800, 20000)]},
+    "C16": {"level": E, "gen_binary": True, "units": [go("TestC16Constants", 1, 1, netns=False, shards={"quick": 1, "thorough": 1}), go("TestC16Gen", 300, 6000, netns=False), go("TestC16", 1500, 60000)]},
     "C02": {"level": E, "units": [go("TestC02", 1600, 60000)]},
 }
